@@ -1,0 +1,55 @@
+//go:build verif
+
+package s2
+
+// Hooks for the verification work package c07walk (build tag "verif" only, no behaviour):
+// read-only access to what the two-index walk of the loop relations reads.
+
+// VerifC07WalkSubregionBound exposes Loop.subregionBound.
+func VerifC07WalkSubregionBound(l *Loop) Rect { return l.subregionBound }
+
+// VerifC07WalkHasCrossingRelation runs hasCrossingRelation(a, b, relation) with a fresh
+// relation object and returns its result together with the relation's final state.
+//
+//	kind 0 = containsRelation, 1 = intersectsRelation, 2 = compareBoundaryRelation(reverse)
+func VerifC07WalkHasCrossingRelation(a, b *Loop, kind int, reverse bool) (crossed, foundSharedVertex, containsEdge, excludesEdge bool) {
+	switch kind {
+	case 0:
+		r := &containsRelation{}
+		crossed = hasCrossingRelation(a, b, r)
+		return crossed, r.foundSharedVertex, false, false
+	case 1:
+		r := &intersectsRelation{}
+		crossed = hasCrossingRelation(a, b, r)
+		return crossed, r.foundSharedVertex, false, false
+	default:
+		r := newCompareBoundaryRelation(reverse)
+		crossed = hasCrossingRelation(a, b, r)
+		return crossed, r.foundSharedVertex, r.containsEdge, r.excludesEdge
+	}
+}
+
+// VerifC07WalkGetCellsFn returns a function that runs CrossingEdgeQuery.getCells(a, b, root)
+// on a FRESH query over the given index with root = PaddedCellFromCellID(rootID, 0) and reports
+// the index cells it found as positions in iterator order (the cells themselves carry no id).
+func VerifC07WalkGetCellsFn(index *ShapeIndex) func(a, b Point, rootID CellID) []int {
+	pos := map[*ShapeIndexCell]int{}
+	k := 0
+	for it := index.Iterator(); !it.Done(); it.Next() {
+		pos[it.IndexCell()] = k
+		k++
+	}
+	return func(a, b Point, rootID CellID) []int {
+		q := NewCrossingEdgeQuery(index)
+		cells := q.getCells(a, b, PaddedCellFromCellID(rootID, 0))
+		out := make([]int, len(cells))
+		for i, c := range cells {
+			p, ok := pos[c]
+			if !ok {
+				p = -1
+			}
+			out[i] = p
+		}
+		return out
+	}
+}
